@@ -61,6 +61,18 @@ class G:
             self.funcs.append("def %s() { %s; %s(); %s }" % (g, self.mark(), f, self.mark()))
             self.note("frame:two-deep")
             return "%s()" % g
+        if k < 0.93 and len(getattr(self, "ops_used", [])) < 4:
+            # the statement runs inside an operator function defined by the script and reached through operator syntax
+            self.ops_used = getattr(self, "ops_used", [])
+            cand = [("-", "string", "string", '"x" - "y"'), ("*", "string", "string", '"x" * "y"'), ("/", "string", "string", '"x" / "y"'),
+                    ("-", "Vector", "Vector", "[1] - [2]"), ("*", "Vector", "string", '[1] * "y"'), ("%", "string", "string", '"x" % "y"')]
+            cand = [x for x in cand if x[:3] not in self.ops_used]
+            if cand:
+                op, ta, tb, use = r.choice(cand)
+                self.ops_used.append((op, ta, tb))
+                self.funcs.append("def `%s`(%s a, %s b) { %s; %s; 0 }" % (op, ta, tb, self.mark(), stmt))
+                self.note("frame:operator")
+                return "var ur%d = %s" % (self.n, use)
         if k < 0.96:
             # the statement runs while a function guard is evaluated (dispatch asks the guard before entering the body)
             f = "tq%d" % self.n
